@@ -82,7 +82,7 @@ func (d *Deliver) IEncode() ([]byte, error) {
 	defer b.Release()
 
 	smgp.WriteHeaderNoLength(d.Header, b)
-	b.WriteFixedLenString(d.MsgID, 10)
+	b.WriteFixedLenString(msgIDOctets(d.MsgID), 10)
 	b.WriteUint8(d.IsReport)
 	b.WriteUint8(d.MsgFormat)
 	b.WriteFixedLenString(d.RecvTime, 14)
